@@ -2,6 +2,7 @@
 package doubles
 
 import (
+	"math/big"
 	"context"
 	"errors"
 	"net"
@@ -30,6 +31,19 @@ func (NopLogger) Error(err error)                                     {}
 func (NopLogger) Fatal(err error)                                     {}
 func (NopLogger) TimeTrack(time.Time, string, map[string]interface{}) {}
 func (NopLogger) Event(e string, f map[string]interface{})            {}
+
+// Logger is the logging interface of the code under test.
+type Logger = log.Logger
+
+// SlowLogger takes Delay for every Error call: a consumer of pipeline errors that is slower than
+// their producers.
+type SlowLogger struct {
+	NopLogger
+	Delay time.Duration
+}
+
+func (l SlowLogger) Error(err error)                              { time.Sleep(l.Delay) }
+func (l SlowLogger) New(key string, value interface{}) log.Logger { return l }
 
 // ---------------------------------------------------------------- p2p
 
@@ -142,6 +156,7 @@ type FakeChain struct {
 	Reports              []Report
 	Fail                 error
 	BlockTime            uint64
+	Registered           [][5]*big.Int
 }
 
 func (c *FakeChain) UpdateRandomness(s *vss.Signature) error {
@@ -154,6 +169,12 @@ func (c *FakeChain) DataReturn(s *vss.Signature) error {
 	c.mu.Lock()
 	defer c.mu.Unlock()
 	c.Reports = append(c.Reports, Report{"DataReturn", s})
+	return c.Fail
+}
+func (c *FakeChain) RegisterGroupPubKey(v [5]*big.Int) error {
+	c.mu.Lock()
+	defer c.mu.Unlock()
+	c.Registered = append(c.Registered, v)
 	return c.Fail
 }
 func (c *FakeChain) GetBlockTime() uint64 {
